@@ -28,6 +28,13 @@ def main():
     patch = os.path.join(dst, "patch.diff")
     env = dict(os.environ, PYTHONPATH="/repo", PYTHONHASHSEED="0")
     meta = dict(id=sid, property=prop, ran=[])
+    old = {}
+    if os.path.exists(os.path.join(dst, "meta.json")):
+        try:
+            old = json.load(open(os.path.join(dst, "meta.json")))
+            meta["property"] = old.get("property", prop)          # a re-run against other checks keeps what the change was written for
+        except Exception:  # noqa
+            old = {}
     assert sh("git -C /repo status --porcelain")[1].strip() == "", "/repo is not clean"
     rc0, out0 = sh("/venv/bin/python %s" % os.path.join(dst, "demo.py"), cwd="/repo", env=env, timeout=300)
     meta["demo_without_change"] = dict(rc=rc0, tail=out0[-300:])
@@ -58,6 +65,9 @@ def main():
         sh("git -C /repo clean -fdq -- pyscsi")
     meta["confirmed"] = (meta["demo_without_change"]["rc"] == 0 and meta["demo_with_change"]["rc"] != 0
                          and meta["tests_with_change"]["rc"] == 0)
+    merged = dict(old.get("checks") or {})
+    merged.update(meta["checks"])
+    meta["checks"] = merged
     meta["caught_by"] = [c for c, v in meta["checks"].items() if v["rc"] != 0]
     notes = open(os.path.join(dst, "notes.md")).read() if os.path.exists(os.path.join(dst, "notes.md")) else ""
     meta["needs_to_manifest"] = notes[:1500]
